@@ -50,14 +50,14 @@ class Writer:
       try:
         fstr = self.field_to_s(fn, tag = False)
       except:
-        fstr = str(self.get(fn))
+        fstr = self.__str_of_invalid_field(fn)
         errors.append(fn)
       a.append(fstr)
     for fn in self.tagnames:
       try:
         fstr = self.field_to_s(fn, tag = True)
       except:
-        fstr = str(self.get(fn))
+        fstr = self.__str_of_invalid_field(fn)
         errors.append(fn)
       a.append(fstr)
     if self.virtual and add_virtual_commentary:
@@ -66,6 +66,15 @@ class Writer:
       a.append("# INVALID; errors found in fields: "+
           ",".join(errors))
     return a
+
+  def __str_of_invalid_field(self, fieldname):
+    # the value of a field which cannot be written may not be printable either
+    try:
+      return str(self.get(fieldname))
+    except gfapy.Error:
+      raise
+    except Exception:
+      return "<error>"
 
   def field_to_s(self, fieldname, tag = False):
     """
